@@ -68,6 +68,69 @@ fn main() {
         std::process::exit(worst);
     }
 
+    if args.len() >= 5 && args[1] == "--artifact-case" {
+        // vcheck --artifact-case <property> <target> <artifact file>: the replay document for a libFuzzer artifact
+        let (prop, target, file) = (&args[2], &args[3], &args[4]);
+        let data = std::fs::read(file).unwrap_or_default();
+        let raw = serde_json::json!({"Raw": {"bytes": hex::encode(&data)}});
+        let case = match (prop.as_str(), target.as_str()) {
+            ("C01", _) | ("C02", _) | ("C16", _) => raw,
+            ("C17", _) => serde_json::json!({"Text": {"text": String::from_utf8_lossy(&data)}}),
+            ("C09", "decoders") => {
+                let n = bsvverif::props::c09::decoders().len() as u8;
+                let (first, rest) = data.split_first().map(|(f, r)| (*f, r.to_vec())).unwrap_or((0, vec![]));
+                serde_json::json!({"dec": first % n, "kind": {"Raw": hex::encode(rest)}})
+            }
+            ("C09", t) => {
+                let name = match t { "tx" => "Transaction::from_bytes", "script" => "Script::from_bytes", _ => "Script::from_asm_string" };
+                let dec = bsvverif::props::c09::decoders().iter().position(|d| d.name == name).unwrap_or(0);
+                serde_json::json!({"dec": dec, "kind": {"Raw": hex::encode(&data)}})
+            }
+            ("C14", _) => match bsv::Script::from_bytes(&data) {
+                Ok(s) => serde_json::json!({"Explicit": {"els": bsvverif::props::common::bits_to_els(&s.to_script_bits()), "via_bits": true}}),
+                Err(_) => serde_json::json!({"Explicit": {"els": [], "via_bits": true}}),
+            },
+            _ => raw,
+        };
+        println!("{}", serde_json::json!({"property": prop, "check": format!("libFuzzer target {}", target), "case": case, "artifact": file}));
+        return;
+    }
+    if args.len() >= 3 && args[1] == "--emit-seeds" {
+        // seed corpora for the libFuzzer targets: valid encodings from the C09 builders
+        let dir = &args[2];
+        let decs = bsvverif::props::c09::decoders();
+        let write = |target: &str, name: String, data: &[u8]| {
+            let d = format!("{}/{}", dir, target);
+            let _ = std::fs::create_dir_all(&d);
+            let _ = std::fs::write(format!("{}/{}", d, name), data);
+        };
+        for (i, d) in decs.iter().enumerate() {
+            for seed in 0..6u32 {
+                let v = (d.valid)(seed * 7 + 1);
+                let mut with_sel = vec![i as u8];
+                match d.feed {
+                    bsvverif::props::c09::Feed::Hex => with_sel.extend(hex::encode(&v).into_bytes()),
+                    _ => with_sel.extend(&v),
+                }
+                write("decoders", format!("d{}_{}", i, seed), &with_sel);
+                if d.name == "Transaction::from_bytes" {
+                    write("tx", format!("tx{}", seed), &v);
+                }
+                if d.name == "Script::from_bytes" {
+                    write("script", format!("s{}", seed), &v);
+                    write("interp", format!("s{}", seed), &v);
+                }
+                if d.name == "Script::from_asm_string" || d.name == "ScriptTemplate::from_asm_string" {
+                    write("asm", format!("a{}_{}", i, seed), &v);
+                }
+            }
+        }
+        for (k, prog) in ["5152935387", "51639167526851", "0102030405767c7e7f", "54557693a0", "006b6c756a51", "02aabb8276a87c"].iter().enumerate() {
+            write("interp", format!("p{}", k), &hex::decode(prog).unwrap());
+        }
+        return;
+    }
+
     let mut out = take_stdout();
     if args.len() < 3 {
         let _ = writeln!(out, "usage: vcheck <ID> <quick|thorough> [--replay <file>]   ids: {:?}", bsvverif::ALL_IDS);
